@@ -129,7 +129,8 @@ def case_strategy(writer):
             return {"writer": writer, "layout": L, "vw": vw, "vh": vh, "relativize": relativize,
                     "shared": draw(st.booleans()),
                     "prev": draw(st.one_of(st.none(), st.none(), layout_strategy(percent_only=False))),
-                    "fit": draw(st.booleans()), "level": draw(st.sampled_from(levels))}
+                    "fit": draw(st.booleans()), "level": draw(st.sampled_from(levels)),
+                    "ctor_positional": draw(st.sampled_from([0, 0, 0, 1, 2, 3]))}
         return build()
     return strat
 
@@ -242,8 +243,18 @@ def _run_writer(case, writer_cls, **extra):
     cs = model.to_pycaption(_build_set(case))
     if case.get("shared"):
         _share_sizes(cs)
-    w = writer_cls(relativize=case["relativize"], fit_to_screen=case["fit"],
-                   video_width=case["vw"], video_height=case["vh"], **extra)
+    # the documented options of BaseWriter, by keyword or - how=1..3 - the first ones positionally
+    how = case.get("ctor_positional", 0)
+    if how == 3:
+        w = writer_cls(case["relativize"], case["vw"], case["vh"], case["fit"], **extra)
+    elif how == 2:
+        w = writer_cls(case["relativize"], case["vw"], video_height=case["vh"], fit_to_screen=case["fit"], **extra)
+    elif how == 1:
+        w = writer_cls(case["relativize"], fit_to_screen=case["fit"], video_width=case["vw"],
+                       video_height=case["vh"], **extra)
+    else:
+        w = writer_cls(relativize=case["relativize"], fit_to_screen=case["fit"],
+                       video_width=case["vw"], video_height=case["vh"], **extra)
     if case.get("prev"):
         # (a) another writer object with other options wrote an equal layout before, and
         # (b) this writer object wrote another layout before
